@@ -120,7 +120,10 @@ CLAIMS = {
     "C14": {
         "text": "Theorems on the Lean model of makeDetailStr: rolls whose extents do not touch are grouped one per roll, in "
                 "order (all span lists); splicing one roll yields exactly `bytes before ++ value[annotation] ++ bytes after` for "
-                "every buffer and every in-range extent (the bytes outside the roll are untouched); a plain dice roll is "
+                "every buffer and every in-range extent (the bytes outside the roll are untouched); `splice_separated` / "
+                "`makeDetail_separated`: for EVERY number of non-overlapping rolls the right-to-left splice (each step rewriting the "
+                "buffer the next one reads) yields the original text with every roll replaced in place by value[annotation], "
+                "computed from the roll's ORIGINAL source extent; a plain dice roll is "
                 "annotated exactly as value[source=text]. The model is tied to makeDetailStr by the `detail` stream on random "
                 "(source, offset, spans) tuples including nested/overlapping/touching spans, every tag, textOnly, custom "
                 "suffixes and out-of-range spans (panic on both sides). Oracle on the implementation, for arithmetic over dice "
@@ -128,8 +131,8 @@ CLAIMS = {
                 "by value[annotation]; stripping annotations leaves arithmetic that evaluates to the result; each annotation's "
                 "value equals the total of the dice it lists (lib/diceoracle); GetDetailText is idempotent and leaves result, "
                 "variables and generator untouched.",
-        "note": TB + "The n-roll order-independence of the reverse splice (detail_is_render for all n) is stated in DESIGN.md and "
-                     "not yet proved; strings.TrimSpace is modelled for ASCII white space. Hook: VerifMakeDetail.",
+        "note": TB + "Nested / overlapping rolls (one group, sub-details) are covered by the stream and the oracle, the closed-form "
+                     "theorem is for non-overlapping rolls; strings.TrimSpace is modelled for ASCII white space. Hook: VerifMakeDetail.",
         "technique": "Lean 4 theorems on a byte-level model of the splice + differential stream + arithmetic/dice oracle",
     },
     "C11": {
